@@ -1,395 +1,614 @@
-import MgpuModel.C14
-/-! # C14 — the vector memory unit's transaction path: FIFO with one lane, conservation with any -/
+import MgpuProofs.C14VmuOldProofs
+/-! # C14 — the REPAIRED vector memory unit: creation order for every width, conservation,
+bounded set-aside storage, one-lane behaviour unchanged -/
 namespace C14.Vmu
 
-/-- the transactions in one lane, oldest (last stage) first -/
-def laneItems (l : List (Option Nat)) : List Nat := l.reverse.filterMap id
+/-- everything ever created, in the order in which it has left / will leave the repaired unit:
+    sent, then `transactionsInOrder`, then `transactionsWaiting` -/
+def ledger (s : St) : List Nat := s.sent ++ s.inOrder ++ s.waiting.map Prod.fst
 
-def pipeItems (lanes : List (List (Option Nat))) : List Nat := lanes.flatMap laneItems
+/-- the transactions between the entry of the pipeline and the port: set aside, in the
+    post-pipeline buffer, in the lanes -/
+def held (s : St) : List Nat := s.aside ++ s.post ++ pipeItems s.lanes
 
-/-- everything ever created, in the order in which it has left / will leave a ONE-lane unit -/
-def order (s : St) : List Nat := s.sent ++ s.post ++ pipeItems s.lanes ++ s.waiting.map Prod.fst
+/-- `send`: the oldest transaction, set aside earlier, goes to the port -/
+def sendA (s : St) (e : Nat) (older : List Nat) : St :=
+  { s with inOrder := older, aside := s.aside.erase e, out := s.out ++ [e], sent := s.sent ++ [e] }
 
-theorem vmu_send_nil (c : Cfg) (n : Nat) (s : St) (h : s.post = []) : send c n s = s := by
-  cases n <;> simp [send, h]
+/-- `send`: the oldest transaction, at the head of the post-pipeline buffer, goes to the port -/
+def sendH (s : St) (e : Nat) (older rest : List Nat) : St :=
+  { s with inOrder := older, post := rest, out := s.out ++ [e], sent := s.sent ++ [e] }
 
-theorem vmu_send_full (c : Cfg) (n : Nat) (s : St) (h : ¬ s.out.length < c.cap) : send c n s = s := by
-  cases n with
-  | zero => simp [send]
-  | succ n => unfold send; split <;> simp [h]
+/-- `send`: a younger head of the post-pipeline buffer is set aside -/
+def setA (s : St) (h : Nat) (rest : List Nat) : St := { s with post := rest, aside := s.aside ++ [h] }
 
-theorem vmu_send_cons (c : Cfg) (n : Nat) (s : St) (e : Nat) (rest : List Nat) (h : s.post = e :: rest)
-    (hl : s.out.length < c.cap) :
-    send c (n + 1) s = send c n { s with post := rest, out := s.out ++ [e], sent := s.sent ++ [e] } := by
-  simp [send, h, hl]
+/-- what one call of `send` keeps / establishes -/
+def vmu_SR (c : Cfg) (s s' : St) : Prop :=
+  ledger s' = ledger s ∧ s'.inOrder.Perm (held s') ∧
+  s'.lanes = s.lanes ∧ s'.waiting = s.waiting ∧ s'.next = s.next ∧ s'.stall = s.stall ∧
+  s'.post.length ≤ s.post.length ∧ (s.out.length ≤ c.cap → s'.out.length ≤ c.cap) ∧
+  s'.inOrder.length ≤ s.inOrder.length
 
-theorem vmu_send_facts (c : Cfg) : ∀ (n : Nat) (s : St),
-    (send c n s).sent ++ (send c n s).post = s.sent ++ s.post ∧
-    (send c n s).lanes = s.lanes ∧ (send c n s).waiting = s.waiting ∧
-    (send c n s).next = s.next ∧ (send c n s).stall = s.stall ∧
-    (send c n s).post.length ≤ s.post.length ∧
-    (s.out.length ≤ c.cap → (send c n s).out.length ≤ c.cap)
-  | 0, s => by simp [send]
-  | n + 1, s => by
-    cases hp : s.post with
-    | nil => rw [vmu_send_nil c _ s hp]; simp [hp]
-    | cons e rest =>
-      by_cases hl : s.out.length < c.cap
-      · rw [vmu_send_cons c n s e rest hp hl]
-        obtain ⟨h1, h2, h3, h4, h5, h6, h7⟩ :=
-          vmu_send_facts c n { s with post := rest, out := s.out ++ [e], sent := s.sent ++ [e] }
-        refine ⟨?_, h2, h3, h4, h5, ?_, ?_⟩
-        · rw [h1]; simp
-        · simp at h6 ⊢; omega
-        · intro _; apply h7; simp; omega
-      · rw [vmu_send_full c _ s hl]; simp [hp]
+theorem vmu_SR_refl (c : Cfg) (s : St) (h : s.inOrder.Perm (held s)) : vmu_SR c s s :=
+  ⟨rfl, h, rfl, rfl, rfl, rfl, Nat.le_refl _, fun h => h, Nat.le_refl _⟩
 
-theorem vmu_laneItems_cons (x : Option Nat) (rest : List (Option Nat)) :
-    laneItems (x :: rest) = laneItems rest ++ x.toList := by
-  cases x <;> simp [laneItems, List.filterMap_append]
+theorem vmu_SR_trans (c : Cfg) (s s1 s2 : St) (h1 : vmu_SR c s s1) (_hc : s1.out.length ≤ c.cap ∨ ¬ s.out.length ≤ c.cap)
+    (h2 : vmu_SR c s1 s2) : vmu_SR c s s2 := by
+  obtain ⟨a1, a2, a3, a4, a5, a6, a7, a8, a9⟩ := h1
+  obtain ⟨b1, b2, b3, b4, b5, b6, b7, b8, b9⟩ := h2
+  refine ⟨b1.trans a1, b2, b3.trans a3, b4.trans a4, b5.trans a5, b6.trans a6, Nat.le_trans b7 a7, ?_,
+    Nat.le_trans b9 a9⟩
+  intro h
+  exact b8 (a8 h)
 
-theorem vmu_laneItems_nil : laneItems [] = [] := rfl
+theorem vmu_send_inv (c : Cfg) : ∀ (n : Nat) (s : St), s.inOrder.Perm (held s) → vmu_SR c s (send c n s)
+  | 0, s, h => by simpa [send] using vmu_SR_refl c s h
+  | n + 1, s, h => by
+    cases hI : s.inOrder with
+    | nil =>
+      have e1 : send c (n + 1) s = s := by simp [send, hI]
+      rw [e1]; exact vmu_SR_refl c s h
+    | cons e older =>
+      rw [hI] at h
+      by_cases ha : e ∈ s.aside
+      · by_cases hl : s.out.length < c.cap
+        · have e1 : send c (n + 1) s = send c n (sendA s e older) := by simp [send, hI, ha, hl, sendA]
+          rw [e1]
+          have hp : older.Perm (held (sendA s e older)) := by
+            have h2 : (e :: older).Perm (e :: (s.aside.erase e ++ s.post ++ pipeItems s.lanes)) := by
+              refine h.trans ?_
+              show (s.aside ++ s.post ++ pipeItems s.lanes).Perm _
+              have := List.perm_cons_erase ha
+              exact ((this.append_right s.post).append_right (pipeItems s.lanes))
+            exact h2.cons_inv
+          have ih := vmu_send_inv c n (sendA s e older) hp
+          refine vmu_SR_trans c s (sendA s e older) _ ⟨?_, hp, rfl, rfl, rfl, rfl, Nat.le_refl _, ?_, ?_⟩ (Or.inl ?_) ih
+          · simp [ledger, hI, sendA]
+          · intro _; simp [sendA]; omega
+          · simp [hI, sendA]
+          · simp [sendA]; omega
+        · have e1 : send c (n + 1) s = s := by simp [send, hI, ha, hl]
+          rw [e1]; exact vmu_SR_refl c s (hI ▸ h)
+      · cases hP : s.post with
+        | nil =>
+          have e1 : send c (n + 1) s = s := by simp [send, hI, ha, hP]
+          rw [e1]; exact vmu_SR_refl c s (hI ▸ h)
+        | cons h' rest =>
+          by_cases he : h' = e
+          · by_cases hl : s.out.length < c.cap
+            · have e1 : send c (n + 1) s = send c n (sendH s e older rest) := by
+                simp [send, hI, ha, hP, he, hl, sendH]
+              rw [e1]
+              have hp : older.Perm (held (sendH s e older rest)) := by
+                have h2 : (e :: older).Perm (e :: (s.aside ++ rest ++ pipeItems s.lanes)) := by
+                  refine h.trans ?_
+                  show (s.aside ++ s.post ++ pipeItems s.lanes).Perm _
+                  rw [hP, he]
+                  have : (s.aside ++ e :: rest).Perm (e :: (s.aside ++ rest)) := List.perm_middle
+                  exact this.append_right _
+                exact h2.cons_inv
+              have ih := vmu_send_inv c n (sendH s e older rest) hp
+              refine vmu_SR_trans c s (sendH s e older rest) _ ⟨?_, hp, rfl, rfl, rfl, rfl, ?_, ?_, ?_⟩ (Or.inl ?_) ih
+              · simp [ledger, hI, sendH]
+              · simp [hP, sendH]
+              · intro _; simp [sendH]; omega
+              · simp [hI, sendH]
+              · simp [sendH]; omega
+            · have e1 : send c (n + 1) s = s := by simp [send, hI, ha, hP, he, hl]
+              rw [e1]; exact vmu_SR_refl c s (hI ▸ h)
+          · have e1 : send c (n + 1) s = send c n (setA s h' rest) := by
+              simp [send, hI, ha, hP, he, setA]
+            rw [e1]
+            have hp : (setA s h' rest).inOrder.Perm (held (setA s h' rest)) := by
+              show s.inOrder.Perm ((s.aside ++ [h']) ++ rest ++ pipeItems s.lanes)
+              rw [hI]
+              refine h.trans ?_
+              show (s.aside ++ s.post ++ pipeItems s.lanes).Perm _
+              rw [hP]
+              simp
+            have ih := vmu_send_inv c n (setA s h' rest) hp
+            have h1 : vmu_SR c s (setA s h' rest) :=
+              ⟨rfl, hp, rfl, rfl, rfl, rfl, by simp [hP, setA], fun h => h, Nat.le_refl _⟩
+            by_cases hc : s.out.length ≤ c.cap
+            · exact vmu_SR_trans c s (setA s h' rest) _ h1 (Or.inl hc) ih
+            · exact vmu_SR_trans c s (setA s h' rest) _ h1 (Or.inr hc) ih
 
-theorem vmu_laneItems_length (l : List (Option Nat)) :
-    (laneItems l).length = (l.filter Option.isSome).length := by
-  induction l with
-  | nil => rfl
-  | cons x rest ih => rw [vmu_laneItems_cons]; cases x <;> simp [ih]
-
-theorem vmu_laneTick_facts (b : Nat) : ∀ (lane : List (Option Nat)) (post : List Nat),
-    (laneTick b lane post).2 ++ laneItems (laneTick b lane post).1 = post ++ laneItems lane ∧
-    (laneTick b lane post).1.length = lane.length ∧
-    (post.length ≤ b → (laneTick b lane post).2.length ≤ b)
-  | [], post => by simp [laneTick]
-  | [x], post => by
-    cases x with
-    | none => simp [laneTick]
-    | some e =>
-      simp only [laneTick]
-      split
-      · simp [vmu_laneItems_cons, vmu_laneItems_nil]; omega
-      · simp
-  | x :: y :: rest, post => by
-    obtain ⟨h1, h2, h3⟩ := vmu_laneTick_facts b (y :: rest) post
-    simp only [laneTick]
-    split
-    · rename_i e tl heq
-      rw [heq] at h1 h2
-      refine ⟨?_, ?_, h3⟩
-      · simp only [vmu_laneItems_cons] at h1 ⊢
-        simp at h1 ⊢
-        rw [← List.append_assoc, h1]; simp
-      · simp at h2 ⊢; omega
-    · refine ⟨?_, ?_, h3⟩
-      · simp only [vmu_laneItems_cons] at h1 ⊢
-        rw [← List.append_assoc, h1]; simp
-      · simp [h2]
-
-theorem vmu_laneTick_count (b : Nat) (lane : List (Option Nat)) (post : List Nat) :
-    (laneTick b lane post).2.length + ((laneTick b lane post).1.filter Option.isSome).length =
-      post.length + (lane.filter Option.isSome).length := by
-  have h := congrArg List.length (vmu_laneTick_facts b lane post).1
-  simp only [List.length_append, vmu_laneItems_length] at h
-  exact h
-
-theorem vmu_tick_facts (b : Nat) : ∀ (lanes : List (List (Option Nat))) (post : List Nat),
-    (tick b lanes post).2.length +
-        ((tick b lanes post).1.map (fun l => (l.filter Option.isSome).length)).sum =
-      post.length + (lanes.map (fun l => (l.filter Option.isSome).length)).sum ∧
-    (tick b lanes post).1.length = lanes.length ∧
-    (post.length ≤ b → (tick b lanes post).2.length ≤ b)
-  | [], post => by simp [tick]
+/-- `Tick` permutes nothing away: buffer and lanes afterwards hold what they held before -/
+theorem vmu_tick_perm (b : Nat) : ∀ (lanes : List (List (Option Nat))) (post : List Nat),
+    ((tick b lanes post).2 ++ pipeItems (tick b lanes post).1).Perm (post ++ pipeItems lanes)
+  | [], post => by simp [tick, pipeItems]
   | l :: ls, post => by
-    obtain ⟨h1, h2, h3⟩ := vmu_tick_facts b ls (laneTick b l post).2
-    have hc := vmu_laneTick_count b l post
-    have hb := (vmu_laneTick_facts b l post).2.2
-    simp only [tick, List.map_cons, List.sum_cons, List.length_cons]
-    refine ⟨by omega, by omega, fun h => h3 (hb h)⟩
+    have h1 := (vmu_laneTick_facts b l post).1
+    have ih := vmu_tick_perm b ls (laneTick b l post).2
+    simp only [tick, pipeItems, List.flatMap_cons] at ih ⊢
+    refine List.perm_append_comm_assoc _ _ _ |>.trans ?_
+    refine (List.Perm.append_left _ ih).trans ?_
+    refine List.perm_append_comm_assoc _ _ _ |>.trans ?_
+    rw [← List.append_assoc, h1, List.append_assoc]
 
-theorem vmu_accept_facts (e : Nat) : ∀ (lanes lanes' : List (List (Option Nat))),
-    accept e lanes = some lanes' →
-    (lanes'.map (fun l => (l.filter Option.isSome).length)).sum =
-      (lanes.map (fun l => (l.filter Option.isSome).length)).sum + 1 ∧
-    lanes'.length = lanes.length
+theorem vmu_accept_perm (e : Nat) : ∀ (lanes lanes' : List (List (Option Nat))),
+    accept e lanes = some lanes' → (pipeItems lanes').Perm (pipeItems lanes ++ [e])
   | [], lanes', h => by simp [accept] at h
   | [] :: ls, lanes', h => by
     simp only [accept, Option.map_eq_some_iff] at h
     obtain ⟨a, ha, rfl⟩ := h
-    have := vmu_accept_facts e ls a ha
-    simp; omega
+    have := vmu_accept_perm e ls a ha
+    simp only [pipeItems, List.flatMap_cons] at this ⊢
+    rw [List.append_assoc]
+    exact this.append_left _
   | (none :: tl) :: ls, lanes', h => by
     simp only [accept, Option.some.injEq] at h
-    subst h; simp; omega
+    subst h
+    simp only [pipeItems, List.flatMap_cons, vmu_laneItems_cons, Option.toList]
+    simp only [List.append_nil, List.append_assoc]
+    exact (List.perm_append_comm (l₁ := [e])).append_left _
   | (some x :: tl) :: ls, lanes', h => by
     simp only [accept, Option.map_eq_some_iff] at h
     obtain ⟨a, ha, rfl⟩ := h
-    have := vmu_accept_facts e ls a ha
-    simp; omega
+    have := vmu_accept_perm e ls a ha
+    simp only [pipeItems, List.flatMap_cons] at this ⊢
+    rw [List.append_assoc]
+    exact this.append_left _
 
-def vmu_ILc (c : Cfg) (s s' : St) : Prop :=
-  inPipe s' + s'.post.length + s'.waiting.length = inPipe s + s.post.length + s.waiting.length ∧
-  (s.post.length ≤ c.buf → s'.post.length ≤ c.buf) ∧ s'.sent = s.sent ∧ s'.out = s.out ∧
-  s'.next = s.next ∧ s'.lanes.length = s.lanes.length
+/-- what `insertLoop` / `insert` keep -/
+def vmu_IR (c : Cfg) (s s' : St) : Prop :=
+  ledger s' = ledger s ∧ s'.inOrder.Perm (held s') ∧ (s.post.length ≤ c.buf → s'.post.length ≤ c.buf) ∧
+  s'.sent = s.sent ∧ s'.out = s.out ∧ s'.next = s.next ∧ s'.lanes.length = s.lanes.length ∧ s'.aside = s.aside
 
-theorem vmu_ILc_refl (c : Cfg) (s : St) : vmu_ILc c s s := by simp [vmu_ILc]
+theorem vmu_IR_refl (c : Cfg) (s : St) (h : s.inOrder.Perm (held s)) : vmu_IR c s s :=
+  ⟨rfl, h, fun h => h, rfl, rfl, rfl, rfl, rfl⟩
 
-theorem vmu_insertLoop_count (c : Cfg) : ∀ (fuel : Nat) (s : St), vmu_ILc c s (insertLoop c fuel s)
-  | 0, s => by simp [insertLoop, vmu_ILc_refl]
-  | fuel + 1, s => by
+theorem vmu_insertLoop_inv (c : Cfg) : ∀ (fuel : Nat) (s : St), s.inOrder.Perm (held s) →
+    vmu_IR c s (insertLoop c fuel s)
+  | 0, s, h => by simpa [insertLoop] using vmu_IR_refl c s h
+  | fuel + 1, s, h => by
     unfold insertLoop
     split
-    · exact vmu_ILc_refl c s
+    · exact vmu_IR_refl c s h
     · rename_i e p rest hw
       split
+      · exact vmu_IR_refl c s h
       · split
-        · rename_i hlt
-          split
-          · simp [vmu_ILc, inPipe, hw]; omega
-          · obtain ⟨i1, i2, i3, i4, i5, i6⟩ :=
-              vmu_insertLoop_count c fuel { s with waiting := rest, post := s.post ++ [e] }
-            simp only [inPipe, List.length_append, List.length_singleton] at i1 i2 i3 i4 i5 i6
-            refine ⟨?_, ?_, i3, i4, i5, i6⟩
-            · simp only [inPipe, hw, List.length_cons]; omega
-            · intro _; apply i2; omega
-        · exact vmu_ILc_refl c s
-      · split
-        · exact vmu_ILc_refl c s
-        · rename_i lanes hacc
-          have ha := vmu_accept_facts e _ _ hacc
-          split
-          · simp [vmu_ILc, inPipe, hw]; omega
-          · obtain ⟨i1, i2, i3, i4, i5, i6⟩ :=
-              vmu_insertLoop_count c fuel { s with waiting := rest, lanes := lanes }
-            simp only [inPipe] at i1 i2 i3 i4 i5 i6
-            refine ⟨?_, i2, i3, i4, i5, ?_⟩
-            · simp only [inPipe, hw, List.length_cons]; omega
-            · exact i6.trans ha.2
+        · split
+          · rename_i hlt
+            have hp : ({ s with waiting := rest, post := s.post ++ [e], inOrder := s.inOrder ++ [e] } : St).inOrder.Perm
+                (held { s with waiting := rest, post := s.post ++ [e], inOrder := s.inOrder ++ [e] }) := by
+              show (s.inOrder ++ [e]).Perm (s.aside ++ (s.post ++ [e]) ++ pipeItems s.lanes)
+              refine (h.append_right [e]).trans ?_
+              show (s.aside ++ s.post ++ pipeItems s.lanes ++ [e]).Perm _
+              simp only [List.append_assoc]
+              exact (List.perm_append_comm (l₁ := pipeItems s.lanes)).append_left _ |>.append_left _
+            have hled : ledger { s with waiting := rest, post := s.post ++ [e], inOrder := s.inOrder ++ [e] } = ledger s := by
+              simp [ledger, hw]
+            split
+            · exact ⟨hled, hp, fun _ => by simp; omega, rfl, rfl, rfl, rfl, rfl⟩
+            · obtain ⟨i1, i2, i3, i4, i5, i6, i7, i8⟩ := vmu_insertLoop_inv c fuel _ hp
+              exact ⟨i1.trans hled, i2, fun _ => i3 (by simp; omega), i4, i5, i6, i7, i8⟩
+          · exact vmu_IR_refl c s h
+        · split
+          · exact vmu_IR_refl c s h
+          · rename_i lanes hacc
+            have hap := vmu_accept_perm e _ _ hacc
+            have hal := (vmu_accept_facts e _ _ hacc).2
+            have hp : ({ s with waiting := rest, lanes := lanes, inOrder := s.inOrder ++ [e] } : St).inOrder.Perm
+                (held { s with waiting := rest, lanes := lanes, inOrder := s.inOrder ++ [e] }) := by
+              show (s.inOrder ++ [e]).Perm (s.aside ++ s.post ++ pipeItems lanes)
+              refine (h.append_right [e]).trans ?_
+              show (s.aside ++ s.post ++ pipeItems s.lanes ++ [e]).Perm _
+              rw [List.append_assoc (s.aside ++ s.post)]
+              exact hap.symm.append_left _
+            have hled : ledger { s with waiting := rest, lanes := lanes, inOrder := s.inOrder ++ [e] } = ledger s := by
+              simp [ledger, hw]
+            split
+            · exact ⟨hled, hp, fun h => h, rfl, rfl, rfl, hal, rfl⟩
+            · obtain ⟨i1, i2, i3, i4, i5, i6, i7, i8⟩ := vmu_insertLoop_inv c fuel _ hp
+              exact ⟨i1.trans hled, i2, i3, i4, i5, i6, i7.trans hal, i8⟩
 
-theorem vmu_insert_count (c : Cfg) (s : St) : vmu_ILc c s (insert c s) := by
+theorem vmu_insert_inv (c : Cfg) (s : St) (h : s.inOrder.Perm (held s)) : vmu_IR c s (insert c s) := by
   unfold insert
   split
-  · simp [vmu_ILc, inPipe]
-  · exact vmu_insertLoop_count c _ s
+  · exact ⟨rfl, h, fun h => h, rfl, rfl, rfl, rfl, rfl⟩
+  · exact vmu_insertLoop_inv c _ s h
 
-def vmu_CInv (c : Cfg) (s : St) : Prop :=
-  s.sent.length + s.post.length + inPipe s + s.waiting.length = s.next ∧
-  s.post.length ≤ c.buf ∧ s.out.length ≤ c.cap
+/-- the invariant of the repaired unit -/
+def vmu_GInv (c : Cfg) (s : St) : Prop :=
+  ledger s = List.range s.next ∧ s.inOrder.Perm (held s) ∧ s.post.length ≤ c.buf ∧ s.out.length ≤ c.cap
 
-theorem vmu_cycle_count (c : Cfg) (s : St) (h : vmu_CInv c s) : vmu_CInv c (cycle c s) := by
-  obtain ⟨h1, h2, h3⟩ := h
-  show vmu_CInv c (insert c { send c c.burst s with
+theorem vmu_cycle_inv (c : Cfg) (s : St) (h : vmu_GInv c s) : vmu_GInv c (cycle c s) := by
+  obtain ⟨h1, h2, h3, h4⟩ := h
+  show vmu_GInv c (insert c { send c c.burst s with
     lanes := (tick c.buf (send c c.burst s).lanes (send c c.burst s).post).1,
     post := (tick c.buf (send c c.burst s).lanes (send c c.burst s).post).2 })
-  obtain ⟨s1, s2, s3, s4, s5, s6, s7⟩ := vmu_send_facts c c.burst s
+  obtain ⟨s1, s2, s3, s4, s5, s6, s7, s8, s9⟩ := vmu_send_inv c c.burst s h2
   generalize send c c.burst s = S at *
+  have tp := vmu_tick_perm c.buf S.lanes S.post
   obtain ⟨t1, t2, t3⟩ := vmu_tick_facts c.buf S.lanes S.post
   generalize tick c.buf S.lanes S.post = T at *
-  obtain ⟨i1, i2, i3, i4, i5, i6⟩ := vmu_insert_count c { S with lanes := T.1, post := T.2 }
+  have hp : ({ S with lanes := T.1, post := T.2 } : St).inOrder.Perm (held { S with lanes := T.1, post := T.2 }) := by
+    show S.inOrder.Perm (S.aside ++ T.2 ++ pipeItems T.1)
+    refine s2.trans ?_
+    show (S.aside ++ S.post ++ pipeItems S.lanes).Perm _
+    rw [List.append_assoc, List.append_assoc]
+    exact tp.symm.append_left _
+  obtain ⟨i1, i2, i3, i4, i5, i6, i7, i8⟩ := vmu_insert_inv c { S with lanes := T.1, post := T.2 } hp
   generalize insert c { S with lanes := T.1, post := T.2 } = I at *
-  have hl := congrArg List.length s1
-  simp only [List.length_append] at hl
-  simp only [inPipe] at i1 i2 i3 i4 i5 i6 h1
-  rw [s2] at t1
-  rw [s3] at i1
-  refine ⟨?_, ?_, ?_⟩
-  · simp only [inPipe]; rw [i3, i5, s4]; omega
-  · exact i2 (t3 (by omega))
-  · rw [i4]; exact s7 h3
+  refine ⟨?_, i2, i3 (t3 (by omega)), ?_⟩
+  · rw [i1, i6]
+    show ledger S = List.range S.next
+    rw [s1, s5, h1]
+  · rw [i5]; exact s8 h4
 
-theorem vmu_step_count (c : Cfg) (s : St) (op : Op) (h : vmu_CInv c s) : vmu_CInv c (step c s op) := by
+theorem vmu_step_inv (c : Cfg) (s : St) (op : Op) (h : vmu_GInv c s) : vmu_GInv c (step c s op) := by
   cases op with
   | issue k p =>
-    obtain ⟨h1, h2, h3⟩ := h
-    simp [step, issue, vmu_CInv, inPipe] at h1 ⊢
-    omega
+    obtain ⟨h1, h2, h3, h4⟩ := h
+    refine ⟨?_, h2, h3, h4⟩
+    show ledger (issue s k p) = List.range (s.next + k)
+    rw [List.range_add, ← h1]
+    simp [ledger, issue, Function.comp_def]
   | cyc t =>
-    obtain ⟨h1, h2, h3⟩ := vmu_cycle_count c s h
-    simp [step, take, vmu_CInv, inPipe] at h1 ⊢
-    omega
+    obtain ⟨h1, h2, h3, h4⟩ := vmu_cycle_inv c s h
+    refine ⟨h1, h2, h3, ?_⟩
+    show ((cycle c s).out.drop t).length ≤ c.cap
+    simp; omega
 
-theorem vmu_run_count (c : Cfg) : ∀ (ops : List Op) (s : St), vmu_CInv c s → vmu_CInv c (run c s ops)
+theorem vmu_run_inv (c : Cfg) : ∀ (ops : List Op) (s : St), vmu_GInv c s → vmu_GInv c (run c s ops)
   | [], s, h => h
   | op :: ops, s, h => by
     simp only [run, List.foldl_cons]
-    exact vmu_run_count c ops _ (vmu_step_count c s op h)
+    exact vmu_run_inv c ops _ (vmu_step_inv c s op h)
 
-theorem vmu_init_count (c : Cfg) : vmu_CInv c (St.init c) := by
-  simp [vmu_CInv, St.init, inPipe]
+theorem vmu_init_inv (c : Cfg) : vmu_GInv c (St.init c) := by
+  have hp : pipeItems (List.replicate c.width (List.replicate c.stages (none : Option Nat))) = [] := by
+    induction c.width with
+    | zero => rfl
+    | succ n ih =>
+      rw [List.replicate_succ]
+      simp only [pipeItems, List.flatMap_cons] at ih ⊢
+      rw [ih, vmu_laneItems_replicate_none]; rfl
+  refine ⟨by simp [ledger, St.init], ?_, by simp [St.init], by simp [St.init]⟩
+  show ([] : List Nat).Perm ([] ++ [] ++ pipeItems (List.replicate c.width (List.replicate c.stages none)))
+  rw [hp]; exact List.Perm.refl _
 
-/-- any number of lanes: no transaction is lost or duplicated (counts) and the buffers keep their
-    capacities -/
-theorem vmu_count (c : Cfg) (ops : List Op) :
-    (run c (St.init c) ops).sent.length + (run c (St.init c) ops).post.length + inPipe (run c (St.init c) ops) +
-      (run c (St.init c) ops).waiting.length = (run c (St.init c) ops).next ∧
-    (run c (St.init c) ops).post.length ≤ c.buf ∧ (run c (St.init c) ops).out.length ≤ c.cap :=
-  vmu_run_count c ops _ (vmu_init_count c)
+theorem vmu_inv (c : Cfg) (ops : List Op) : vmu_GInv c (run c (St.init c) ops) :=
+  vmu_run_inv c ops _ (vmu_init_inv c)
 
-theorem vmu_pipeItems_single (l : List (Option Nat)) : pipeItems [l] = laneItems l := by
-  simp [pipeItems]
-
-theorem vmu_accept_single (e : Nat) (lane : List (Option Nat)) (lanes' : List (List (Option Nat)))
-    (h : accept e [lane] = some lanes') : ∃ tl, lane = none :: tl ∧ lanes' = [some e :: tl] := by
-  cases lane with
-  | nil => simp [accept] at h
-  | cons x tl =>
-    cases x with
-    | none => simp [accept] at h; exact ⟨tl, rfl, h.symm⟩
-    | some y => simp [accept] at h
-
-def vmu_OInv (c : Cfg) (s : St) : Prop :=
-  ∃ lane, s.lanes = [lane] ∧ lane.length = c.stages ∧ order s = List.range s.next
-
-def vmu_ILo (c : Cfg) (s s' : St) : Prop :=
-  ∀ lane, s.lanes = [lane] → lane.length = c.stages →
-    ∃ lane', s'.lanes = [lane'] ∧ lane'.length = c.stages ∧ order s' = order s ∧ s'.next = s.next
-
-theorem vmu_ILo_refl (c : Cfg) (s : St) : vmu_ILo c s s :=
-  fun lane hl hlen => ⟨lane, hl, hlen, rfl, rfl⟩
-
-theorem vmu_insertLoop_order (c : Cfg) : ∀ (fuel : Nat) (s : St), vmu_ILo c s (insertLoop c fuel s)
-  | 0, s => by simp [insertLoop, vmu_ILo_refl]
-  | fuel + 1, s => by
-    unfold insertLoop
-    split
-    · exact vmu_ILo_refl c s
-    · rename_i e p rest hw
-      split
-      · rename_i h0
-        split
-        · have key : ∀ lane, s.lanes = [lane] → lane.length = c.stages →
-              order { s with waiting := rest, post := s.post ++ [e] } = order s := by
-            intro lane hl hlen
-            have : lane = [] := List.eq_nil_of_length_eq_zero (hlen.trans h0)
-            simp [order, hw, hl, this, vmu_pipeItems_single, vmu_laneItems_nil]
-          split
-          · intro lane hl hlen
-            exact ⟨lane, hl, hlen, key lane hl hlen, rfl⟩
-          · intro lane hl hlen
-            obtain ⟨lane', a1, a2, a3, a4⟩ :=
-              vmu_insertLoop_order c fuel { s with waiting := rest, post := s.post ++ [e] } lane hl hlen
-            exact ⟨lane', a1, a2, a3.trans (key lane hl hlen), a4⟩
-        · exact vmu_ILo_refl c s
-      · split
-        · exact vmu_ILo_refl c s
-        · rename_i lanes hacc
-          have key : ∀ lane, s.lanes = [lane] → lane.length = c.stages →
-              ∃ lane', lanes = [lane'] ∧ lane'.length = c.stages ∧
-                order { s with waiting := rest, lanes := lanes } = order s := by
-            intro lane hl hlen
-            rw [hl] at hacc
-            obtain ⟨tl, h1, h2⟩ := vmu_accept_single e lane lanes hacc
-            subst h1; subst h2
-            refine ⟨some e :: tl, rfl, by simpa using hlen, ?_⟩
-            simp [order, hw, hl, vmu_pipeItems_single, vmu_laneItems_cons]
-          split
-          · intro lane hl hlen
-            obtain ⟨lane', k1, k2, k3⟩ := key lane hl hlen
-            exact ⟨lane', k1, k2, k3, rfl⟩
-          · intro lane hl hlen
-            obtain ⟨lane', k1, k2, k3⟩ := key lane hl hlen
-            obtain ⟨lane'', a1, a2, a3, a4⟩ :=
-              vmu_insertLoop_order c fuel { s with waiting := rest, lanes := lanes } lane' k1 k2
-            exact ⟨lane'', a1, a2, a3.trans k3, a4⟩
-
-theorem vmu_insert_order (c : Cfg) (s : St) : vmu_ILo c s (insert c s) := by
-  unfold insert
-  split
-  · intro lane hl hlen
-    exact ⟨lane, hl, hlen, rfl, rfl⟩
-  · exact vmu_insertLoop_order c _ s
-
-theorem vmu_tick_single (b : Nat) (lane : List (Option Nat)) (post : List Nat) :
-    tick b [lane] post = ([(laneTick b lane post).1], (laneTick b lane post).2) := by
-  simp [tick]
-
-theorem vmu_cycle_order (c : Cfg) (s : St) (h : vmu_OInv c s) : vmu_OInv c (cycle c s) := by
-  obtain ⟨lane, hl, hlen, ho⟩ := h
-  show vmu_OInv c (insert c { send c c.burst s with
-    lanes := (tick c.buf (send c c.burst s).lanes (send c c.burst s).post).1,
-    post := (tick c.buf (send c c.burst s).lanes (send c c.burst s).post).2 })
-  obtain ⟨s1, s2, s3, s4, s5, s6, s7⟩ := vmu_send_facts c c.burst s
-  generalize send c c.burst s = S at *
-  rw [s2, hl, vmu_tick_single]
-  obtain ⟨t1, t2, t3⟩ := vmu_laneTick_facts c.buf lane S.post
-  generalize laneTick c.buf lane S.post = T at *
-  obtain ⟨lane', a1, a2, a3, a4⟩ := vmu_insert_order c { S with lanes := [T.1], post := T.2 } T.1 rfl
-    (t2.trans hlen)
-  refine ⟨lane', a1, a2, ?_⟩
-  rw [a3, a4]
-  show order { S with lanes := [T.1], post := T.2 } = List.range S.next
-  rw [s4, ← ho]
-  simp only [order, vmu_pipeItems_single, hl, s3]
-  rw [List.append_assoc S.sent, t1, ← List.append_assoc S.sent, s1]
-
-theorem vmu_step_order (c : Cfg) (s : St) (op : Op) (h : vmu_OInv c s) : vmu_OInv c (step c s op) := by
-  cases op with
-  | issue k p =>
-    obtain ⟨lane, hl, hlen, ho⟩ := h
-    refine ⟨lane, hl, hlen, ?_⟩
-    show order (issue s k p) = List.range (s.next + k)
-    rw [List.range_add, ← ho]
-    simp [order, issue, Function.comp_def]
-  | cyc t =>
-    obtain ⟨lane, hl, hlen, ho⟩ := vmu_cycle_order c s h
-    exact ⟨lane, hl, hlen, ho⟩
-
-theorem vmu_run_order (c : Cfg) : ∀ (ops : List Op) (s : St), vmu_OInv c s → vmu_OInv c (run c s ops)
-  | [], s, h => h
-  | op :: ops, s, h => by
-    simp only [run, List.foldl_cons]
-    exact vmu_run_order c ops _ (vmu_step_order c s op h)
-
-theorem vmu_laneItems_replicate_none : ∀ n : Nat, laneItems (List.replicate n none) = []
-  | 0 => rfl
-  | n + 1 => by rw [List.replicate_succ, vmu_laneItems_cons, vmu_laneItems_replicate_none n]; rfl
-
-theorem vmu_init_order (c : Cfg) (hw : c.width = 1) : vmu_OInv c (St.init c) := by
-  refine ⟨List.replicate c.stages none, by simp [St.init, hw], by simp, ?_⟩
-  simp [order, St.init, hw, vmu_pipeItems_single, vmu_laneItems_replicate_none]
-
-theorem vmu_prefix_range (a b : List Nat) (n : Nat) (h : a ++ b = List.range n) :
-    a = List.range a.length := by
-  have hl := congrArg List.length h
-  simp only [List.length_append, List.length_range] at hl
-  have h2 := congrArg (List.take a.length) h
-  rw [List.take_left, List.take_range] at h2
-  rw [Nat.min_eq_left (by omega)] at h2
-  exact h2
-
-/-- with one lane: sent, then the post-pipeline buffer, then the lane from its last stage to its
-    first, then the waiting list — is exactly the creation order -/
-theorem vmu_one_lane_order (c : Cfg) (hw : c.width = 1) (ops : List Op) :
-    order (run c (St.init c) ops) = List.range (run c (St.init c) ops).next := by
-  obtain ⟨_, _, _, h⟩ := vmu_run_order c ops _ (vmu_init_order c hw)
-  exact h
-
-/-- with one lane the requests reach the port in creation order, without gap -/
-theorem vmu_one_lane_sent (c : Cfg) (hw : c.width = 1) (ops : List Op) :
+/-- the repaired unit, any number of lanes: the requests reach the port in creation order, without gap -/
+theorem vmu_sent_range (c : Cfg) (ops : List Op) :
     (run c (St.init c) ops).sent = List.range (run c (St.init c) ops).sent.length := by
-  have h := vmu_one_lane_order c hw ops
-  unfold order at h
-  rw [List.append_assoc, List.append_assoc] at h
+  have h := (vmu_inv c ops).1
+  unfold ledger at h
+  rw [List.append_assoc] at h
   exact vmu_prefix_range _ _ _ h
 
-theorem vmu_step_lanes_len (c : Cfg) (s : St) (op : Op) : (step c s op).lanes.length = s.lanes.length := by
-  cases op with
-  | issue k p => rfl
-  | cyc t =>
-    show (insert c { send c c.burst s with
-      lanes := (tick c.buf (send c c.burst s).lanes (send c c.burst s).post).1,
-      post := (tick c.buf (send c c.burst s).lanes (send c c.burst s).post).2 }).lanes.length = _
-    rw [(vmu_insert_count c _).2.2.2.2.2, ← (vmu_send_facts c c.burst s).2.1]
-    exact (vmu_tick_facts c.buf _ _).2.1
+theorem vmu_pipeItems_length (lanes : List (List (Option Nat))) :
+    (pipeItems lanes).length = (lanes.map (fun l => (l.filter Option.isSome).length)).sum := by
+  induction lanes with
+  | nil => rfl
+  | cons l ls ih =>
+    simp only [pipeItems, List.flatMap_cons] at ih ⊢
+    simp [ih, vmu_laneItems_length]
 
-/-- every op keeps the number of lanes -/
-theorem vmu_lanes_len (c : Cfg) (ops : List Op) : (run c (St.init c) ops).lanes.length = c.width := by
-  have : ∀ (ops : List Op) (s : St), (run c s ops).lanes.length = s.lanes.length := by
-    intro ops
-    induction ops with
-    | nil => intro s; rfl
-    | cons op ops ih =>
-      intro s
-      simp only [run, List.foldl_cons]
-      exact (ih (step c s op)).trans (vmu_step_lanes_len c s op)
-  rw [this]; simp [St.init]
+/-- any number of lanes: every transaction created is in exactly one place, `transactionsInOrder`
+    lists exactly the transactions between pipeline entry and port, capacities are kept -/
+theorem vmu_count (c : Cfg) (ops : List Op) :
+    (run c (St.init c) ops).sent.length + (run c (St.init c) ops).aside.length + (run c (St.init c) ops).post.length +
+      inPipe (run c (St.init c) ops) + (run c (St.init c) ops).waiting.length = (run c (St.init c) ops).next ∧
+    (run c (St.init c) ops).inOrder.length =
+      (run c (St.init c) ops).aside.length + (run c (St.init c) ops).post.length + inPipe (run c (St.init c) ops) ∧
+    (run c (St.init c) ops).post.length ≤ c.buf ∧ (run c (St.init c) ops).out.length ≤ c.cap := by
+  obtain ⟨h1, h2, h3, h4⟩ := vmu_inv c ops
+  generalize run c (St.init c) ops = s at *
+  have l1 := congrArg List.length h1
+  have l2 := h2.length_eq
+  simp only [ledger, held, List.length_append, List.length_range, List.length_map, vmu_pipeItems_length] at l1 l2
+  refine ⟨?_, ?_, h3, h4⟩
+  · simp only [inPipe]; omega
+  · simp only [inPipe]; omega
+
+/-! ## one lane: the repaired unit does, cycle by cycle, what the unit did before the repair -/
+
+/-- the repaired unit `s` and the old unit `o` agree on everything the old unit has; nothing is set
+    aside and `transactionsInOrder` is the post-pipeline buffer followed by the (single) lane -/
+def vmu_Same (c : Cfg) (s o : St) : Prop :=
+  s.waiting = o.waiting ∧ s.stall = o.stall ∧ s.lanes = o.lanes ∧ s.post = o.post ∧ s.out = o.out ∧
+  s.sent = o.sent ∧ s.next = o.next ∧ s.aside = [] ∧ s.inOrder = s.post ++ pipeItems s.lanes ∧
+  ∃ lane, s.lanes = [lane] ∧ lane.length = c.stages
+
+theorem vmu_send_same (c : Cfg) : ∀ (n : Nat) (s o : St), vmu_Same c s o → vmu_Same c (send c n s) (Old.send c n o)
+  | 0, s, o, h => by simpa [send, Old.send] using h
+  | n + 1, s, o, h => by
+    obtain ⟨h1, h2, h3, h4, h5, h6, h7, h8, h9, h10⟩ := h
+    cases hP : s.post with
+    | nil =>
+      have eo : Old.send c (n + 1) o = o := Old.vmu_send_nil c _ o (h4 ▸ hP)
+      have es : send c (n + 1) s = s := by
+        cases hI : s.inOrder with
+        | nil => simp [send, hI]
+        | cons e older => simp [send, hI, h8, hP]
+      rw [eo, es]; exact ⟨h1, h2, h3, h4, h5, h6, h7, h8, h9, h10⟩
+    | cons e rest =>
+      have hI : s.inOrder = e :: (rest ++ pipeItems s.lanes) := by rw [h9, hP]; rfl
+      by_cases hl : s.out.length < c.cap
+      · have es : send c (n + 1) s = send c n (sendH s e (rest ++ pipeItems s.lanes) rest) := by
+          simp [send, hI, h8, hP, hl, sendH]
+        have eo := Old.vmu_send_cons c n o e rest (h4 ▸ hP) (h5 ▸ hl)
+        rw [es, eo]
+        apply vmu_send_same
+        exact ⟨h1, h2, h3, rfl, by simp [sendH, h5], by simp [sendH, h6], h7, h8, rfl, h10⟩
+      · have es : send c (n + 1) s = s := by simp [send, hI, h8, hP, hl]
+        have eo : Old.send c (n + 1) o = o := Old.vmu_send_full c _ o (h5 ▸ hl)
+        rw [eo, es]; exact ⟨h1, h2, h3, h4, h5, h6, h7, h8, h9, h10⟩
+
+theorem vmu_insertLoop_same (c : Cfg) : ∀ (fuel : Nat) (s o : St), vmu_Same c s o →
+    vmu_Same c (insertLoop c fuel s) (Old.insertLoop c fuel o)
+  | 0, s, o, h => by simpa [insertLoop, Old.insertLoop] using h
+  | fuel + 1, s, o, h => by
+    obtain ⟨h1, h2, h3, h4, h5, h6, h7, h8, h9, lane, h10, h11⟩ := h
+    unfold insertLoop Old.insertLoop
+    rw [← h1]
+    cases hw : s.waiting with
+    | nil => exact ⟨h1, h2, h3, h4, h5, h6, h7, h8, h9, lane, h10, h11⟩
+    | cons ep rest =>
+      obtain ⟨e, p⟩ := ep
+      dsimp only
+      rw [if_neg (fun hne => hne h8)]
+      by_cases h0 : c.stages = 0
+      · simp only [h0, if_true]
+        have hl0 : lane = [] := List.eq_nil_of_length_eq_zero (h11.trans h0)
+        rw [← h4]
+        by_cases hlt : s.post.length < c.buf
+        · simp only [hlt, if_true]
+          have hs : vmu_Same c { s with waiting := rest, post := s.post ++ [e], inOrder := s.inOrder ++ [e] }
+              { o with waiting := rest, post := s.post ++ [e] } := by
+            refine ⟨rfl, h2, h3, rfl, h5, h6, h7, h8, ?_, lane, h10, h11⟩
+            show s.inOrder ++ [e] = (s.post ++ [e]) ++ pipeItems s.lanes
+            rw [h9, h10, hl0]; simp [pipeItems, vmu_laneItems_nil]
+          by_cases hp : p > 0
+          · simp only [hp, if_true]
+            obtain ⟨a1, a2, a3, a4, a5, a6, a7, a8, a9, a10⟩ := hs
+            exact ⟨a1, rfl, a3, a4, a5, a6, a7, a8, a9, a10⟩
+          · simp only [hp, if_false]
+            exact vmu_insertLoop_same c fuel _ _ hs
+        · simp only [hlt, if_false]
+          exact ⟨h1, h2, h3, h4, h5, h6, h7, h8, h9, lane, h10, h11⟩
+      · simp only [h0, if_false]
+        rw [← h3]
+        cases hacc : accept e s.lanes with
+        | none => exact ⟨h1, h2, h3, h4, h5, h6, h7, h8, h9, lane, h10, h11⟩
+        | some lanes =>
+          simp only []
+          rw [h10] at hacc
+          obtain ⟨tl, q1, q2⟩ := vmu_accept_single e lane lanes hacc
+          have hs : vmu_Same c { s with waiting := rest, lanes := lanes, inOrder := s.inOrder ++ [e] }
+              { o with waiting := rest, lanes := lanes } := by
+            refine ⟨rfl, h2, rfl, h4, h5, h6, h7, h8, ?_, some e :: tl, q2, ?_⟩
+            · show s.inOrder ++ [e] = s.post ++ pipeItems lanes
+              rw [h9, h10, q2, q1]
+              simp [vmu_pipeItems_single, vmu_laneItems_cons]
+            · rw [← h11, q1]; rfl
+          by_cases hp : p > 0
+          · simp only [hp, if_true]
+            obtain ⟨a1, a2, a3, a4, a5, a6, a7, a8, a9, a10⟩ := hs
+            exact ⟨a1, rfl, a3, a4, a5, a6, a7, a8, a9, a10⟩
+          · simp only [hp, if_false]
+            exact vmu_insertLoop_same c fuel _ _ hs
+
+theorem vmu_cycle_same (c : Cfg) (s o : St) (h : vmu_Same c s o) : vmu_Same c (cycle c s) (Old.cycle c o) := by
+  show vmu_Same c (insert c { send c c.burst s with
+      lanes := (tick c.buf (send c c.burst s).lanes (send c c.burst s).post).1,
+      post := (tick c.buf (send c c.burst s).lanes (send c c.burst s).post).2 })
+    (Old.insert c { Old.send c c.burst o with
+      lanes := (tick c.buf (Old.send c c.burst o).lanes (Old.send c c.burst o).post).1,
+      post := (tick c.buf (Old.send c c.burst o).lanes (Old.send c c.burst o).post).2 })
+  obtain ⟨h1, h2, h3, h4, h5, h6, h7, h8, h9, lane, h10, h11⟩ := vmu_send_same c c.burst s o h
+  generalize send c c.burst s = S at *
+  generalize Old.send c c.burst o = O at *
+  rw [← h3, ← h4]
+  have ht : vmu_Same c { S with lanes := (tick c.buf S.lanes S.post).1, post := (tick c.buf S.lanes S.post).2 }
+      { O with lanes := (tick c.buf S.lanes S.post).1, post := (tick c.buf S.lanes S.post).2 } := by
+    refine ⟨h1, h2, rfl, rfl, h5, h6, h7, h8, ?_, (laneTick c.buf lane S.post).1, ?_, ?_⟩
+    · show S.inOrder = (tick c.buf S.lanes S.post).2 ++ pipeItems (tick c.buf S.lanes S.post).1
+      rw [h9, h10, vmu_tick_single, vmu_pipeItems_single, vmu_pipeItems_single]
+      exact ((vmu_laneTick_facts c.buf lane S.post).1).symm
+    · show (tick c.buf S.lanes S.post).1 = _
+      rw [h10, vmu_tick_single]
+    · exact ((vmu_laneTick_facts c.buf lane S.post).2.1).trans h11
+  generalize ({ S with lanes := (tick c.buf S.lanes S.post).1, post := (tick c.buf S.lanes S.post).2 } : St) = S' at *
+  generalize ({ O with lanes := (tick c.buf S.lanes S.post).1, post := (tick c.buf S.lanes S.post).2 } : St) = O' at *
+  unfold insert Old.insert
+  obtain ⟨k1, k2, k3, k4, k5, k6, k7, k8, k9, k10⟩ := ht
+  by_cases hst : S'.stall > 0
+  · rw [if_pos hst, if_pos (k2 ▸ hst)]
+    exact ⟨k1, by simp [k2], k3, k4, k5, k6, k7, k8, k9, k10⟩
+  · rw [if_neg hst, if_neg (k2 ▸ hst), ← k1]
+    exact vmu_insertLoop_same c _ _ _ ⟨k1, k2, k3, k4, k5, k6, k7, k8, k9, k10⟩
+
+theorem vmu_step_same (c : Cfg) (s o : St) (op : Op) (h : vmu_Same c s o) :
+    vmu_Same c (step c s op) (Old.step c o op) := by
+  cases op with
+  | issue k p =>
+    obtain ⟨h1, h2, h3, h4, h5, h6, h7, h8, h9, h10⟩ := h
+    exact ⟨by simp [step, Old.step, issue, h1, h7], h2, h3, h4, h5, h6, by simp [step, Old.step, issue, h7], h8, h9, h10⟩
+  | cyc t =>
+    obtain ⟨h1, h2, h3, h4, h5, h6, h7, h8, h9, h10⟩ := vmu_cycle_same c s o h
+    exact ⟨h1, h2, h3, h4, by simp [step, Old.step, take, h5], h6, h7, h8, h9, h10⟩
+
+theorem vmu_run_same (c : Cfg) : ∀ (ops : List Op) (s o : St), vmu_Same c s o →
+    vmu_Same c (run c s ops) (Old.run c o ops)
+  | [], s, o, h => h
+  | op :: ops, s, o, h => by
+    simp only [run, Old.run, List.foldl_cons]
+    exact vmu_run_same c ops _ _ (vmu_step_same c s o op h)
+
+theorem vmu_init_same (c : Cfg) (hw : c.width = 1) : vmu_Same c (St.init c) (St.init c) := by
+  refine ⟨rfl, rfl, rfl, rfl, rfl, rfl, rfl, rfl, ?_, List.replicate c.stages none, by simp [St.init, hw], by simp⟩
+  simp [St.init, hw, pipeItems, vmu_laneItems_replicate_none]
+
+/-! ## the storage for transactions set aside is bounded -/
+
+/-- every lane has `n` stages -/
+def vmu_ShapeL (n : Nat) (lanes : List (List (Option Nat))) : Prop := ∀ l ∈ lanes, l.length = n
+
+theorem vmu_tick_shape (b n : Nat) : ∀ (lanes : List (List (Option Nat))) (post : List Nat),
+    vmu_ShapeL n lanes → vmu_ShapeL n (tick b lanes post).1
+  | [], post, _ => by simp [tick, vmu_ShapeL]
+  | l :: ls, post, h => by
+    intro x hx
+    simp only [tick, List.mem_cons] at hx
+    rcases hx with rfl | hx
+    · rw [(vmu_laneTick_facts b l post).2.1]; exact h l (List.mem_cons_self ..)
+    · exact vmu_tick_shape b n ls _ (fun y hy => h y (List.mem_cons_of_mem _ hy)) x hx
+
+theorem vmu_accept_shape (e n : Nat) : ∀ (lanes lanes' : List (List (Option Nat))),
+    accept e lanes = some lanes' → vmu_ShapeL n lanes → vmu_ShapeL n lanes'
+  | [], lanes', h, _ => by simp [accept] at h
+  | [] :: ls, lanes', h, hs => by
+    simp only [accept, Option.map_eq_some_iff] at h
+    obtain ⟨a, ha, rfl⟩ := h
+    intro x hx
+    rcases List.mem_cons.mp hx with rfl | hx
+    · exact hs _ (List.mem_cons_self ..)
+    · exact vmu_accept_shape e n ls a ha (fun y hy => hs y (List.mem_cons_of_mem _ hy)) x hx
+  | (none :: tl) :: ls, lanes', h, hs => by
+    simp only [accept, Option.some.injEq] at h
+    subst h
+    intro x hx
+    rcases List.mem_cons.mp hx with rfl | hx
+    · have := hs (none :: tl) (List.mem_cons_self ..); simpa using this
+    · exact hs x (List.mem_cons_of_mem _ hx)
+  | (some y :: tl) :: ls, lanes', h, hs => by
+    simp only [accept, Option.map_eq_some_iff] at h
+    obtain ⟨a, ha, rfl⟩ := h
+    intro x hx
+    rcases List.mem_cons.mp hx with rfl | hx
+    · exact hs _ (List.mem_cons_self ..)
+    · exact vmu_accept_shape e n ls a ha (fun y hy => hs y (List.mem_cons_of_mem _ hy)) x hx
+
+theorem vmu_pipeItems_le (n : Nat) : ∀ (lanes : List (List (Option Nat))), vmu_ShapeL n lanes →
+    (pipeItems lanes).length ≤ lanes.length * n
+  | [], _ => by simp [pipeItems]
+  | l :: ls, h => by
+    have ih := vmu_pipeItems_le n ls (fun y hy => h y (List.mem_cons_of_mem _ hy))
+    have hl := h l (List.mem_cons_self ..)
+    have hf : (laneItems l).length ≤ l.length := by
+      rw [vmu_laneItems_length]; exact List.length_filter_le _ _
+    simp only [pipeItems, List.flatMap_cons, List.length_append, List.length_cons] at ih ⊢
+    rw [Nat.add_mul]; omega
+
+theorem vmu_insertLoop_shape (c : Cfg) : ∀ (fuel : Nat) (s : St), vmu_ShapeL c.stages s.lanes →
+    vmu_ShapeL c.stages (insertLoop c fuel s).lanes
+  | 0, s, h => by simpa [insertLoop] using h
+  | fuel + 1, s, h => by
+    unfold insertLoop
+    split
+    · exact h
+    · split
+      · exact h
+      · split
+        · split
+          · split
+            · exact h
+            · exact vmu_insertLoop_shape c fuel _ h
+          · exact h
+        · split
+          · exact h
+          · rename_i lanes hacc
+            have h' := vmu_accept_shape _ c.stages _ _ hacc h
+            split
+            · exact h'
+            · exact vmu_insertLoop_shape c fuel _ h'
+
+theorem vmu_insertLoop_blocked (c : Cfg) (fuel : Nat) (s : St) (h : s.aside ≠ []) : insertLoop c fuel s = s := by
+  cases fuel with
+  | zero => rfl
+  | succ n =>
+    unfold insertLoop
+    split
+    · rfl
+    · rw [if_pos h]
+
+/-- lanes × stages, and the bound on `transactionsInOrder` -/
+def vmu_BInv (c : Cfg) (s : St) : Prop :=
+  s.lanes.length = c.width ∧ vmu_ShapeL c.stages s.lanes ∧ s.inOrder.length ≤ c.buf + c.width * c.stages
+
+theorem vmu_insert_blocked (c : Cfg) (s : St) (h : s.aside ≠ []) : (insert c s).inOrder = s.inOrder := by
+  unfold insert
+  split
+  · rfl
+  · rw [vmu_insertLoop_blocked c _ s h]
+
+theorem vmu_cycle_bound (c : Cfg) (s : St) (hg : vmu_GInv c s) (hb : vmu_BInv c s) : vmu_BInv c (cycle c s) := by
+  have hgc := vmu_cycle_inv c s hg
+  obtain ⟨b1, b2, b3⟩ := hb
+  revert hgc
+  show vmu_GInv c (insert c { send c c.burst s with
+    lanes := (tick c.buf (send c c.burst s).lanes (send c c.burst s).post).1,
+    post := (tick c.buf (send c c.burst s).lanes (send c c.burst s).post).2 }) →
+    vmu_BInv c (insert c { send c c.burst s with
+    lanes := (tick c.buf (send c c.burst s).lanes (send c c.burst s).post).1,
+    post := (tick c.buf (send c c.burst s).lanes (send c c.burst s).post).2 })
+  obtain ⟨s1, s2, s3, s4, s5, s6, s7, s8, s9⟩ := vmu_send_inv c c.burst s hg.2.1
+  generalize send c c.burst s = S at *
+  have tshape := vmu_tick_shape c.buf c.stages S.lanes S.post (s3 ▸ b2)
+  have tlen := (vmu_tick_facts c.buf S.lanes S.post).2.1
+  have tp := vmu_tick_perm c.buf S.lanes S.post
+  generalize tick c.buf S.lanes S.post = T at *
+  have hp : ({ S with lanes := T.1, post := T.2 } : St).inOrder.Perm (held { S with lanes := T.1, post := T.2 }) := by
+    show S.inOrder.Perm (S.aside ++ T.2 ++ pipeItems T.1)
+    refine s2.trans ?_
+    show (S.aside ++ S.post ++ pipeItems S.lanes).Perm _
+    rw [List.append_assoc, List.append_assoc]
+    exact tp.symm.append_left _
+  obtain ⟨i1, i2, i3, i4, i5, i6, i7, i8⟩ := vmu_insert_inv c { S with lanes := T.1, post := T.2 } hp
+  have ishape : vmu_ShapeL c.stages (insert c { S with lanes := T.1, post := T.2 }).lanes := by
+    unfold insert
+    split
+    · exact tshape
+    · exact vmu_insertLoop_shape c _ _ tshape
+  have hbl : S.aside ≠ [] → (insert c { S with lanes := T.1, post := T.2 }).inOrder = S.inOrder :=
+    fun h => vmu_insert_blocked c { S with lanes := T.1, post := T.2 } h
+  generalize insert c { S with lanes := T.1, post := T.2 } = I at *
+  intro hgc
+  have ilen : I.lanes.length = c.width := by
+    rw [i7]; show T.1.length = c.width
+    rw [tlen, s3, b1]
+  refine ⟨ilen, ishape, ?_⟩
+  by_cases ha : S.aside = []
+  · have hI : I.aside = [] := i8.trans ha
+    have hl := hgc.2.1.length_eq
+    have hpl := vmu_pipeItems_le c.stages I.lanes ishape
+    have hpost := hgc.2.2.1
+    simp only [held, hI, List.nil_append, List.length_append] at hl
+    rw [ilen] at hpl
+    omega
+  · rw [hbl ha]; omega
+
+theorem vmu_step_bound (c : Cfg) (s : St) (op : Op) (hg : vmu_GInv c s) (hb : vmu_BInv c s) :
+    vmu_BInv c (step c s op) := by
+  cases op with
+  | issue k p => exact hb
+  | cyc t => exact vmu_cycle_bound c s hg hb
+
+theorem vmu_run_bound (c : Cfg) : ∀ (ops : List Op) (s : St), vmu_GInv c s → vmu_BInv c s → vmu_BInv c (run c s ops)
+  | [], s, _, h => h
+  | op :: ops, s, hg, h => by
+    simp only [run, List.foldl_cons]
+    exact vmu_run_bound c ops _ (vmu_step_inv c s op hg) (vmu_step_bound c s op hg h)
+
+theorem vmu_init_bound (c : Cfg) : vmu_BInv c (St.init c) := by
+  refine ⟨by simp [St.init], ?_, by simp [St.init]⟩
+  intro l hl
+  simp only [St.init] at hl
+  rw [List.eq_of_mem_replicate hl]; simp
+
+/-- the bookkeeping list — hence the storage for transactions set aside — never holds more than
+    post-pipeline buffer + lanes × stages transactions -/
+theorem vmu_bound (c : Cfg) (ops : List Op) :
+    (run c (St.init c) ops).inOrder.length ≤ c.buf + c.width * c.stages ∧
+    (run c (St.init c) ops).aside.length ≤ c.buf + c.width * c.stages := by
+  have hb := (vmu_run_bound c ops _ (vmu_init_inv c) (vmu_init_bound c)).2.2
+  have hc := (vmu_count c ops).2.1
+  omega
+
 end C14.Vmu
